@@ -180,6 +180,12 @@ class Design:
     def load(d):
         D = Design([tuple(c) for c in d["comps"]], d.get("tag", ""))
         D.sigs, D.objs, D.stmts = d["sigs"], d["objs"], d["stmts"]
+        # rebuild the indexes: sig() / obj() on a loaded design must find the existing entries
+        # (a second object for the same view would be a different node of the connection graph)
+        D._sigidx = {(sg["h"], sg["name"]): i for i, sg in enumerate(D.sigs, 1)}
+        D._objidx = {(o["s"], o["suf"]): i for i, o in enumerate(D.objs, 1) if o["s"] != 0}
+        assert len(D._sigidx) == len(D.sigs) and len(D._objidx) == sum(1 for o in D.objs if o["s"] != 0), \
+            "duplicate signal / object in a design descriptor"
         return D
 
     # -- shape predicates used to name families of findings
@@ -237,6 +243,9 @@ def _junk(R):
     return ["_J.append( bytearray(%d) )" % R.choice([24, 56, 120, 248, 504])]
 
 
+MIN_VARIANTS = 8
+
+
 def variants_of(D, cap, R):
     """(perm, flips) pairs: every permutation of the statements x every side flip of the connects,
     or a seeded sample of `cap` of them (identity and full reversal always included)."""
@@ -251,6 +260,11 @@ def variants_of(D, cap, R):
         for p in itertools.permutations(range(n)):
             for f in range(2 ** len(conns)):
                 out.append((list(p), f))
+        # the outcome may also depend on object addresses (sets of signals hash by id): every
+        # variant is generated with its own dummy allocations, so give small designs a few more
+        base = list(out)
+        while len(out) < MIN_VARIANTS:
+            out += base[:MIN_VARIANTS - len(out)]
         return out, True
     out = {(tuple(range(n)), 0), (tuple(range(n - 1, -1, -1)), 2 ** len(conns) - 1)}
     while len(out) < cap:
@@ -586,6 +600,9 @@ def run_jobs(items, hashseeds, seed, nproc=None):
 _SIB_RE = re.compile(r"Two-writer conflict between sibling slices\. \n - \S+ \(in (\w+)\)\n - \S+ \(in (\w+)\)")
 
 
+_SELF_RE = re.compile(r'Two-writer conflict "([^"]+)"\(as "[^"]+" is written somewhere else\), "([^"]+)"')
+
+
 def _net_pairs(nets):
     return {(frozenset(m), w) for (w, m) in nets}
 
@@ -649,6 +666,10 @@ def family_key(D, e, clause, out, msg, reduced_ok):
         m = _SIB_RE.search(msg or "")
         if m and m.group(1) == m.group(2):
             return "same-block-overlapping-sibling-slices-rejected"
+    if clause == "legal-design-rejected" and out == "MultiWriterError" and D.same_block_whole_and_part() and reduced_ok:
+        m = _SELF_RE.search(msg or "")
+        if m and m.group(1) == m.group(2):
+            return "same-block-writes-whole-and-part:member-in-conflict-with-itself"
     if D.same_block_whole_and_part() and reduced_ok:
         return "same-block-writes-whole-and-part:%s:%s" % (clause, out)
     if clause == "wrong-error-class" and out == "KeyError" and D.self_connect():
@@ -892,6 +913,14 @@ def fixed_shapes():
     D.conn(D.obj(a, "[2:4]"), D.obj(D.sig(1, "o", "out", "b2")), 1)
     D.blk("u", 1, [(D.obj(a), "@="), (D.obj(a, "[0:2]"), "@=")])
     out.append(D)
+    # ... the net is fed by a slice that overlaps the written part
+    for ty, part, other, ot in (("b8", "[2:6]", "[0:4]", "b4"), ("b4", "[1:3]", "[0:2]", "b2"),
+                                ("St", ".f[0:2]", ".f[1:3]", "b2")):
+        D = Design([("s", None)], "fixed/whole+part-ovl")
+        c = D.sig(1, "c", "wire", ty)
+        D.conn(D.obj(c, other), D.obj(D.sig(1, "o", "out", ot)), 1)
+        D.blk("u", 1, [(D.obj(c), "@="), (D.obj(c, part), "@=")])
+        out.append(D)
     # ... the same with the part written by nobody (legal neighbour)
     D = Design([("s", None)], "fixed/whole-only")
     x = D.sig(1, "x", "wire", "St")
